@@ -150,6 +150,8 @@ def check(tier: str) -> Result:
     if n_mv < 12:
         raise AnalysisError(f"only {n_mv} applications of a unit-move table found (hand-confirmed minimum 12)")
     n_wo = move_rules.write_order_obligations(res, tree, "C09.R10")
+    n_re = move_rules.reencoding_obligations(res, tree, "C09.R11")
+    lbf_rules.occupancy_obligations(res, tree, "C09.R3")
     res.analysed = {"table_pairings": n, "axis_typed_sites": n_axis, "mask_vs_step_validity": n_b}
     res.assumptions = ["direction names in the code carry their usual meaning (up = previous row, left = previous column)",
                        "PacMan is excluded from the naming convention (its x/y naming is transposed); only sibling agreement is checked there"]
